@@ -66,6 +66,10 @@ func c17MakeTree(t testing.TB, root string) *c17Tree {
 	rel := []string{
 		"safe/a.txt", "safe/b.lst", "safe/sub/c.txt", "safe2/d.txt", "secret/s.txt", "other.txt",
 		"safe/[x].txt", "safe/\xc3\xbc.txt", "safe/sub/deep/e.txt", "safe/-.txt",
+		// the same names in another letter case: separate files on a
+		// case-sensitive file system, which no lower-case pattern matches in a
+		// literal position
+		"SAFE/a.txt", "safe/A.txt", "safe/a.TXT", "safe/sub/C.txt",
 	}
 	tr.rel = rel
 	for i, r := range rel {
@@ -81,6 +85,13 @@ func c17MakeTree(t testing.TB, root string) *c17Tree {
 		tr.order = append(tr.order, p)
 	}
 	sort.Strings(tr.order)
+	// the tree must be on a case-sensitive file system: every marker file is
+	// still its own file after all of them were written
+	for p, m := range tr.files {
+		if b, err := os.ReadFile(p); err != nil || c17Marker(b) != m {
+			t.Fatalf("C17 needs a case-sensitive temporary file system: %q holds marker %d, want %d (%v)", p, c17Marker(b), m, err)
+		}
+	}
 	seen := map[string]bool{}
 	addDir := func(d string) {
 		if !seen[d] {
@@ -199,6 +210,9 @@ func c17New(t testing.TB, dataDir string, pats []string, block, allow []c17Plant
 		DataDir:          dataDir,
 		FilteringEnabled: true,
 		SafeFSPatterns:   pats,
+		// non-zero, so that the periodic path does something; which entries
+		// are due is set by the harness before each periodic step
+		FiltersUpdateIntervalHours: 24,
 		Filters:          mk(block, false),
 		WhitelistFilters: mk(allow, true),
 		HTTPClient:       &http.Client{Timeout: 5 * time.Second, Transport: c17RT{real: &http.Transport{}}},
@@ -258,6 +272,8 @@ type c17Op struct {
 	Old     string `json:"old,omitempty"`
 	Enabled bool   `json:"enabled,omitempty"`
 	White   bool   `json:"white"`
+	// Due: for "periodic", the locations whose entries are due for an update
+	Due []string `json:"due,omitempty"`
 }
 
 type c17Obs struct {
@@ -316,6 +332,30 @@ func c17Do(d *DNSFilter, op c17Op) (code, updated int) {
 		default:
 			return 6, 0
 		}
+	case "periodic":
+		// What the timer of updatesLoop does, without the goroutine and the
+		// waiting: the entries named in op.Due get a LastUpdated long ago, the
+		// others one of now, and periodicallyRefreshFilters is called as the
+		// loop calls it.
+		due := map[string]bool{}
+		for _, u := range op.Due {
+			due[u] = true
+		}
+		func() {
+			d.conf.filtersMu.Lock()
+			defer d.conf.filtersMu.Unlock()
+			for _, arr := range []*[]FilterYAML{&d.conf.Filters, &d.conf.WhitelistFilters} {
+				for i := range *arr {
+					if due[(*arr)[i].URL] {
+						(*arr)[i].LastUpdated = time.Time{}
+					} else {
+						(*arr)[i].LastUpdated = time.Now()
+					}
+				}
+			}
+		}()
+		_ = d.periodicallyRefreshFilters(5 * time.Second)
+		return 0, 0
 	default:
 		body, _ := json.Marshal(map[string]bool{"whitelist": op.White})
 		w := httptest.NewRecorder()
@@ -468,7 +508,47 @@ func c17PatternSets(R string) [][]string {
 		{R + "/safe/[]"},             // malformed and noticed: New fails
 		{R + "/s*e/*"},
 		{R + "/safe/?????", R + "/safe/\xc3\xbc.txt"},
+		// letter case: lower-case class and extension, upper-case literals
+		{R + "/safe/[a-z].txt", R + "/safe/sub/c.txt"},
+		{R + "/SAFE/*", R + "/safe/A.*"},
+		{R + "/safe/*.TXT", R + "/safe/[A-Z].txt"},
 	}
+}
+
+// c17CaseVariants are spellings of the file rel (relative to the root R) that
+// differ from it in letter case only.  Some exist as separate marker files
+// (SAFE/a.txt, safe/A.txt, safe/a.TXT, safe/sub/C.txt), most do not.
+func c17CaseVariants(R, rel string) []string {
+	dir, base := filepath.Split(rel)
+	ext := filepath.Ext(base)
+	stem := strings.TrimSuffix(base, ext)
+	first := func(x string) string {
+		if x == "" {
+			return x
+		}
+		return strings.ToUpper(x[:1]) + x[1:]
+	}
+	swap := strings.Map(func(c rune) rune {
+		switch {
+		case 'a' <= c && c <= 'z':
+			return c - 32
+		case 'A' <= c && c <= 'Z':
+			return c + 32
+		}
+		return c
+	}, rel)
+	vs := []string{
+		R + "/" + strings.ToUpper(dir) + base,                 // directory names
+		R + "/" + dir + stem + strings.ToUpper(ext),           // extension
+		R + "/" + dir + strings.ToUpper(stem) + ext,           // file name
+		R + "/" + dir + first(base),                           // first letter
+		R + "/" + first(rel),                                  // first letter of the first element
+		R + "/" + strings.ToUpper(rel),                        // everything
+		R + "/" + swap,                                        // every letter swapped
+		filepath.Dir(R) + "/" + strings.ToUpper(filepath.Base(R)) + "/" + rel, // the root's own name
+		R + "/" + strings.ToLower(rel),                        // all lower (for the upper-case files)
+	}
+	return vs
 }
 
 // c17Loc builds a hostile or benign location.
@@ -476,9 +556,21 @@ func c17Loc(r *vfRand, tr *c17Tree) (loc, class string) {
 	R := tr.root
 	target := vfPick(r, tr.order)
 	relT := strings.TrimPrefix(target, R+"/")
-	switch r.Intn(26) {
+	switch r.Intn(29) {
 	case 0, 1, 2:
 		return target, "loc-plain"
+	case 26, 27:
+		// a letter-case variant of a marker file; 1 in 2 of one of the files
+		// that have an existing variant
+		if r.Bool() {
+			relT = vfPick(r, []string{"safe/a.txt", "safe/sub/c.txt", "safe/b.lst", "other.txt"})
+		}
+		return vfPick(r, c17CaseVariants(R, relT)), "loc-case"
+	case 28:
+		// case variant combined with another spelling
+		v := vfPick(r, c17CaseVariants(R, vfPick(r, []string{"safe/a.txt", "safe/sub/c.txt"})))
+		relV := strings.TrimPrefix(v, R+"/")
+		return vfPick(r, []string{R + "/safe/../" + relV, R + "//" + relV, R + "/./" + relV + "/", "file://" + v, relV}), "loc-case"
 	case 3:
 		return R + "/safe/../" + relT, "loc-dotdot"
 	case 4:
@@ -554,6 +646,8 @@ func (tr *c17Tree) OpsCoq(ops []c17Op) string {
 			items[i] = vfApp("op_add", tr.P(o.Loc), vfBool(o.White))
 		case "set":
 			items[i] = vfApp("op_set", tr.P(o.Old), tr.P(o.Loc), vfBool(o.Enabled), vfBool(o.White))
+		case "periodic":
+			items[i] = vfApp("op_periodic", tr.PList(o.Due))
 		default:
 			items[i] = vfApp("op_refresh", vfBool(o.White))
 		}
@@ -685,7 +779,17 @@ func c17GenHistory(r *vfRand, tr *c17Tree, n int) (block, allow []c17Plant, ops 
 	}
 	sort.Strings(known)
 	for i := 0; i < n; i++ {
-		switch r.Intn(7) {
+		switch r.Intn(8) {
+		case 7:
+			// the periodic path with a random subset of the known locations due
+			var due []string
+			for _, u := range known {
+				if r.Chance(2, 3) {
+					due = append(due, u)
+				}
+			}
+			ops = append(ops, c17Op{Kind: "periodic", Due: due})
+			classes = append(classes, "periodic")
 		case 0, 1, 2:
 			loc, cl := c17Loc(r, tr)
 			if r.Chance(1, 3) {
@@ -791,9 +895,10 @@ func c17EmitReader(out *vfOut, tr *c17Tree, d *DNSFilter, pats []string, loc, cl
 func c17GenPattern(r *vfRand) string {
 	if r.Chance(1, 3) {
 		return vfPick(r, []string{"*", "**", "a*", "*a", "a*b", "*/*", "/a/*", "/a/?", "[a-c]", "[^a-c]x", "[a-c", "[]", "[]a]", "[^]", "[-]", "a[", "\\", "a\\", "\\*", "\\[a]",
-			"[\\]]", "[a-]", "[a-\\-]", "/a/*/b", "/a/*b*", "?*", "*?", "a?b", "[/]", "/a[/]b", "[!a]", "*[", "a*[", "/a/*[", "\xc3\xbc", "[\xc3\xa0-\xc3\xbf]", "[\xff]", "?", "", "/"})
+			"[\\]]", "[a-]", "[a-\\-]", "/a/*/b", "/a/*b*", "?*", "*?", "a?b", "[/]", "/a[/]b", "[!a]", "*[", "a*[", "/a/*[", "\xc3\xbc", "[\xc3\xa0-\xc3\xbf]", "[\xff]", "?", "", "/",
+			"A*", "[A-Z]", "[a-z]x", "/a/*.x", "/A/?", "aB", "[^A-Z]b", "\\A"})
 	}
-	const al = "ab/*?[]^-\\x\xc3\xbc."
+	const al = "abA/*?[]^-\\x\xc3\xbc."
 	n := r.Intn(9)
 	b := make([]byte, n)
 	for i := range b {
@@ -804,9 +909,9 @@ func c17GenPattern(r *vfRand) string {
 
 func c17GenName(r *vfRand) string {
 	if r.Chance(1, 4) {
-		return vfPick(r, []string{"", "a", "b", "ab", "/", "/a/b", "/a/", "/a/b/c", "a/b", "\xc3\xbc", "a\xc3\xbcb", "\xff", "-", "]", "^", "*", "[a]", "\\", "test", "/a/x", "abx"})
+		return vfPick(r, []string{"", "a", "b", "ab", "/", "/a/b", "/a/", "/a/b/c", "a/b", "\xc3\xbc", "a\xc3\xbcb", "\xff", "-", "]", "^", "*", "[a]", "\\", "test", "/a/x", "abx", "A", "Ab", "aB", "/A/b", "/a/B.x", "/a/b.X", "AX"})
 	}
-	const al = "abx/-]^*\\\xc3\xbc\xff."
+	const al = "abxAB/-]^*\\\xc3\xbc\xff."
 	n := r.Intn(7)
 	b := make([]byte, n)
 	for i := range b {
@@ -904,6 +1009,10 @@ func TestVerifC17(t *testing.T) {
 			[]c17Op{{Kind: "refresh"}, {Kind: "refresh", White: true}}, []string{"pre-refresh-planted-hostile"})
 		c17History(t, out, tr, dataDir, nil, []c17Plant{{URL: h, Enabled: true}}, nil,
 			[]c17Op{{Kind: "refresh"}, {Kind: "add", Loc: h}}, []string{"pre-no-patterns"})
+		// the periodic path: nothing due, the hostile entries due, everything due
+		c17History(t, out, tr, dataDir, safe, []c17Plant{{URL: h, Enabled: true}, {URL: R + "/safe/a.txt", Enabled: true}}, []c17Plant{{URL: h + "/.", Enabled: true, Loaded: 77}},
+			[]c17Op{{Kind: "periodic"}, {Kind: "periodic", Due: []string{h, h + "/."}}, {Kind: "periodic", Due: []string{h, h + "/.", R + "/safe/a.txt"}}, {Kind: "periodic", Due: []string{R + "/safe/a.txt"}}},
+			[]string{"pre-periodic-planted-hostile", "periodic"})
 	}
 	for _, b := range benign {
 		c17History(t, out, tr, dataDir, safe, nil, nil, []c17Op{{Kind: "add", Loc: b}, {Kind: "add", Loc: b}, {Kind: "refresh"}}, []string{"pre-add-benign"})
@@ -915,6 +1024,51 @@ func TestVerifC17(t *testing.T) {
 	// a malformed pattern that the configuration check does not notice
 	c17History(t, out, tr, dataDir, []string{R + "/safe/*["}, []c17Plant{{URL: R + "/safe/a.txt", Enabled: true}, {URL: "http://lists.example/a.txt", Enabled: true}}, nil,
 		[]c17Op{{Kind: "add", Loc: R + "/safe/a.txt"}, {Kind: "refresh"}, {Kind: "add", Loc: R + "/secret/s.txt"}}, []string{"pre-unnoticed-bad-pattern"})
+	c17History(t, out, tr, dataDir, []string{R + "/safe/*["}, []c17Plant{{URL: "http://lists.example/a.txt", Enabled: true}, {URL: R + "/safe/a.txt", Enabled: true}}, []c17Plant{{URL: R + "/safe/b.lst", Enabled: true}},
+		[]c17Op{{Kind: "periodic", Due: []string{"http://lists.example/a.txt"}}, {Kind: "periodic", Due: []string{R + "/safe/b.lst"}}, {Kind: "periodic", Due: []string{"http://lists.example/a.txt", R + "/safe/a.txt", R + "/safe/b.lst"}}},
+		[]string{"pre-unnoticed-bad-pattern", "periodic"})
+
+	// Letter case: for each kind of lower-case pattern (extension after a star,
+	// exact path, class) the spellings of a safe file in another letter case,
+	// existing as separate marker files, at add / set_url / refresh; and the
+	// converse for an upper-case pattern.
+	type c17CasePre struct {
+		pats    []string
+		good    string   // matches: may be read
+		hostile []string // differ from something matched in letter case only
+	}
+	for _, cp := range []c17CasePre{
+		{[]string{R + "/safe/*.txt"}, R + "/safe/a.txt", []string{R + "/SAFE/a.txt", R + "/safe/a.TXT", R + "/safe/../SAFE/a.txt", R + "/Safe/a.txt"}},
+		{[]string{R + "/safe/a.txt", R + "/safe/sub/c.txt"}, R + "/safe/a.txt", []string{R + "/safe/A.txt", R + "/safe/a.TXT", R + "/SAFE/a.txt", R + "/safe/sub/C.txt"}},
+		{[]string{R + "/safe/[a-z].txt"}, R + "/safe/a.txt", []string{R + "/safe/A.txt", R + "/SAFE/a.txt"}},
+		{[]string{R + "/s?fe/?.txt", R + "/safe/sub/*"}, R + "/safe/sub/C.txt", []string{R + "/SAFE/a.txt", R + "/safe/a.TXT"}},
+		{[]string{R + "/SAFE/*", R + "/safe/A.*"}, R + "/SAFE/a.txt", []string{R + "/safe/a.txt", R + "/safe/a.TXT", R + "/safe/b.lst"}},
+	} {
+		for _, h := range cp.hostile {
+			c17History(t, out, tr, dataDir, cp.pats, nil, nil,
+				[]c17Op{{Kind: "add", Loc: h}, {Kind: "add", Loc: cp.good}, {Kind: "add", Loc: h, White: true}}, []string{"pre-add-case", "loc-case"})
+			c17History(t, out, tr, dataDir, cp.pats, []c17Plant{{URL: cp.good, Enabled: true}}, nil,
+				[]c17Op{{Kind: "refresh"}, {Kind: "set", Old: cp.good, Loc: h, Enabled: true}, {Kind: "refresh"}}, []string{"pre-set-case", "loc-case"})
+			c17History(t, out, tr, dataDir, cp.pats, []c17Plant{{URL: h, Enabled: true}, {URL: cp.good, Enabled: true}}, []c17Plant{{URL: h + "/.", Enabled: true, Loaded: 77}},
+				[]c17Op{{Kind: "refresh"}, {Kind: "refresh", White: true}}, []string{"pre-refresh-case", "loc-case"})
+			c17History(t, out, tr, dataDir, cp.pats, []c17Plant{{URL: h, Enabled: true}}, []c17Plant{{URL: cp.good, Enabled: true}, {URL: h + "/", Enabled: true}},
+				[]c17Op{{Kind: "periodic", Due: []string{cp.good}}, {Kind: "periodic", Due: []string{h, h + "/"}}}, []string{"pre-periodic-case", "loc-case", "periodic"})
+		}
+	}
+	// Patterns that are not in cleaned form match no cleaned path as they are
+	// written: nothing may be read under them, at any entry point (a
+	// constructor that cleans them would widen "lists/../*.txt" to the parent).
+	for _, up := range [][]string{
+		{R + "/safe/../*.txt"}, {R + "/secret/../safe/*"}, {R + "/safe//*"}, {R + "/safe/./*"}, {R + "/safe/sub/../*.txt", R + "/safe/"},
+		{R + "/safe/sub/"}, {R + "//other.txt"},
+	} {
+		for _, loc := range []string{R + "/other.txt", R + "/safe/a.txt", R + "/safe/sub"} {
+			c17History(t, out, tr, dataDir, up, []c17Plant{{URL: loc, Enabled: true}}, []c17Plant{{URL: "http://lists.example/a.txt", Enabled: true}},
+				[]c17Op{{Kind: "add", Loc: loc + "/."}, {Kind: "refresh"}, {Kind: "set", Old: "http://lists.example/a.txt", Loc: loc + "/", Enabled: true, White: true}, {Kind: "refresh", White: true},
+					{Kind: "periodic", Due: []string{loc, loc + "/", "http://lists.example/a.txt"}}},
+				[]string{"pre-unclean-pattern"})
+		}
+	}
 
 	rnd := vfNewRand(out.Seed)
 	rh := rnd.Fork(1)
